@@ -7,7 +7,24 @@ for l in open('/verif/properties.jsonl'):
     r = json.loads(l)
     if r['id'] == pid:
         rec = r
-wt = '/tmp/hunt-%s' % pid.lower()
+rnd = sys.argv[2] if len(sys.argv) > 2 else ''
+wt = '/tmp/hunt%s-%s' % (rnd, pid.lower())
+known = ''
+if rnd:
+    # a later round: tell the reviewer what has been reported before (fixed, or judged outside the property), so that the
+    # time goes into new ground
+    kf = json.load(open('/verif/known_findings.json'))['findings']
+    lines = [f['line'].split(' ', 3)[-1] for f in kf if f['property'] == pid]
+    known = ('\n\nAlready reported in earlier rounds and FIXED in the current tree (do not report again; variations of the same root cause '
+             'that still fail ARE of interest):\n' + '\n'.join('  - ' + l[:300] for l in lines) +
+             '\n\nReported earlier and judged OUTSIDE the property (do not report again): results at exact block / integration multiples '
+             'where either neighbour is acceptable; magnitudes beyond 1e150; 2-D inputs to estimate_stats; float32 containers rounding what is '
+             'added to them; what a deep copy of a stream shares; exceptions raised by user callbacks inside stream requests; selections of a '
+             'cadence built with class defaults; t_overwrite not re-applied on append; set_order with a too-short order; template header cards '
+             'shadowing input cards; blimpy\'s own limits (HDF5 files under 3x3, band edges at 0 MHz); Quantities passed where the docstring '
+             'says float and the call fails loudly.\n\nIn this round look especially for: float arithmetic where the quantity is an exact integer '
+             '(int(a * b / c) one too small), state carried between the first and later uses of one object, the last element of a range, and '
+             'arguments the docstring documents but no test uses.')
 print(f"""You are reviewing the Python library bbrzycki/setigen (current tree of /repo, which already contains a number of recent commits whose messages start with "fix:") for GENUINE DEFECTS against one stated property. You work ONLY in your own scratch git worktree of the repository and you must NOT read or use anything under /verif.
 
 Set up your worktree first:
@@ -20,7 +37,7 @@ The property (this is all you are given about it):
     title: {rec['title']}
     statement: {rec['statement']}
     quantified over: {rec['quantifier']['text']}
-    anchored in: {', '.join(rec['anchors']['files'])}
+    anchored in: {', '.join(rec['anchors']['files'])}{known}
 
 Your task: find inputs, configurations, argument forms or call histories — inside what the property quantifies over and inside what the docstrings allow — for which the CURRENT, UNMODIFIED library violates the property: a silently wrong result, a valid input that is refused, state that leaks between calls or objects, an exception that leaves an object corrupted, an overflow or precision loss for legitimate magnitudes or numeric types, an optional argument that is ignored. Read the anchored source carefully, form hypotheses, and TEST each of them by running small programs against the unmodified worktree. Be systematic: enumerate the public entry points and their optional arguments in the anchored files, and try boundary values (0, 1, exact grid points, first/last element, empty), unusual-but-valid argument forms (numpy scalars of various widths, 0-d arrays, lists/tuples, astropy Quantities in non-base units, float32/integer/complex/non-contiguous/read-only arrays), object reuse (second call, after a reset, after an exception, after copy/pickle) and combinations of two options.
 
